@@ -8,7 +8,7 @@
     build every captured / error span from lexer spans. Hypothesis on the scanner: it measures
     token ends with ColumnMetrics::end_position and never ends a token between the CR and LF of a
     CRLF ending — proved here for the harness scanners ([scan_canonical]). *)
-From Tephra Require Import MetricsSpec MetricsFacts CLexer LexerFacts LexerCanon LexerFacts Run Peg RunCore RunMove RunBracket RunCanon.
+From Tephra Require Import MetricsSpec MetricsFacts CLexer LexerFacts LexerCanon LexerFacts Run Peg RunCore RunMove RunBracket RunCanon LexerBuilders.
 
 (** the scanner maps canonical starts to canonical ends, strictly further on *)
 Theorem C03_scanner_canonical :
@@ -47,6 +47,32 @@ Theorem C03_start_sublex :
   PosOK m t lx -> c_start_sublex lx = Ok lx' -> PosOK m t lx'.
 Proof. exact c_start_sublex_pos. Qed.
 Print Assumptions C03_start_sublex.
+
+(** builder order: the metrics builders re-measure every held position under the NEW metrics; every
+    position whose byte offset is a character boundary that does not split a line ending of the new
+    metrics becomes the canonical position of that offset (any boundary is good for LF and CR) *)
+Theorem C03_metrics_builders_remeasure :
+  forall m, 1 <= tabw m -> forall t, wf_text t -> forall lx, c_text lx = t ->
+  good_offset m t (c_ps lx) -> good_offset m t (c_ts lx) -> good_offset m t (c_cur lx) ->
+  (match c_buf lx with None => True | Some b => good_offset m t (pk_start b) /\ good_offset m t (pk_cursor b) end) ->
+  exists lx', set_met_remeasure lx m = Ok lx' /\ PosOK m t lx'
+    /\ c_filter lx' = c_filter lx /\ c_sc lx' = c_sc lx /\ c_rec lx' = c_rec lx
+    /\ byte (c_ps lx') = byte (c_ps lx) /\ byte (c_ts lx') = byte (c_ts lx) /\ byte (c_cur lx') = byte (c_cur lx).
+Proof. exact set_met_remeasure_posok. Qed.
+Print Assumptions C03_metrics_builders_remeasure.
+
+Theorem C03_builders_are_remeasure :
+  forall lx m l n,
+  c_with_metrics lx m = set_met_remeasure lx m
+  /\ c_with_le lx l = set_met_remeasure lx (Build_metrics l (tabw (c_met lx)))
+  /\ c_with_tab lx n = set_met_remeasure lx (Build_metrics (le (c_met lx)) n).
+Proof. intros. repeat split; reflexivity. Qed.
+Print Assumptions C03_builders_are_remeasure.
+
+Theorem C03_any_boundary_good_for_lf_cr :
+  forall m t p pre suf, le m <> LE_CrLf -> t = pre ++ suf -> byte p = blen pre -> good_offset m t p.
+Proof. exact good_offset_lf_cr. Qed.
+Print Assumptions C03_any_boundary_good_for_lf_cr.
 
 (** what the combinators REPORT: every token a lexer with canonical positions will deliver has
     canonical start and end positions; hence the spans named by the errors of the token leaves,
